@@ -238,7 +238,7 @@ type c04op struct {
 	b    int
 }
 
-const c04NOps = 63
+const c04NOps = 66
 
 func (c *c04) apply(op c04op, client int) bool {
 	r := c.r
@@ -534,6 +534,43 @@ func (c *c04) apply(op c04op, client int) bool {
 			parts := fp.Seq[fp.Seq[int]]{c.seqV[sid], c.seqV[oid], {op.b}}
 			c.addSeq(seq.Reduce(parts, monoid.MergeSeq[int]()), fmt.Sprintf("Reduce(s%d,s%d)", sid, oid), sid, -1)
 			c.addSeq(list.Reduce(list.Of(parts...), monoid.MergeSeq[int]()), fmt.Sprintf("list.Reduce(s%d,s%d)", sid, oid), sid, -1)
+
+		// ---- bulk operations over whole residue classes of the key space: maps and sets grow past (and shrink back
+		// below) the 8 / 16 / 32-way node thresholds, so that path copying is exercised on every node kind
+		case 63, 64, 65:
+			cls := []int{}
+			m := []int{2, 3, 4, 8}[op.b%4]
+			for x := 0; x < 64; x++ {
+				if x%m == op.a%m {
+					cls = append(cls, x)
+				}
+			}
+			if k == 65 {
+				sid2 := c.pickFrom(c.sets, op.sel)
+				if sid2 < 0 {
+					return
+				}
+				nontriv(sid2)
+				desc = fmt.Sprintf("Concat(keys = %d mod %d) on set %d", op.a%m, m, sid2)
+				c.addSet(c.setV[sid2].Concat(seqIterable[int](cls)), fmt.Sprintf("s%d.ConcatClass", sid2), sid2)
+				return
+			}
+			mid := c.pickFrom(c.maps, op.sel)
+			if mid < 0 {
+				return
+			}
+			nontriv(mid)
+			if k == 63 {
+				desc = fmt.Sprintf("Concat(keys = %d mod %d) on map %d", op.a%m, m, mid)
+				ts := fp.Seq[fp.Tuple2[int, int]]{}
+				for _, x := range cls {
+					ts = append(ts, as.Tuple2(x, 300+x+op.b))
+				}
+				c.addMap(c.mapV[mid].Concat(seqIterable[fp.Tuple2[int, int]](ts)), fmt.Sprintf("m%d.ConcatClass", mid), mid)
+			} else {
+				desc = fmt.Sprintf("Removed(keys = %d mod %d) on map %d", op.a%m, m, mid)
+				c.addMap(c.mapV[mid].Removed(cls...), fmt.Sprintf("m%d.RemovedClass", mid), mid)
+			}
 
 		// ---- an Option holding a slice / map is decoded over while an older copy of it is still alive
 		case 62:
